@@ -179,7 +179,7 @@ Proof.
   pose proof (partial_template_brel body c' b1 b2 true H) as R.
   pose proof R as (S & C & N1 & N2 & D). rewrite <- S.
   destruct (st (partial_template g rec body c' b1 true)); try exact R.
-  rewrite <- C. eapply brel_chain; [exact R|]. apply IH. exact (brel_nulls _ _ _ _ H R).
+  eapply brel_chain; [exact R|]. apply IH. exact (brel_nulls _ _ _ _ H R).
 Qed.
 
 Lemma render_partial_brel body key nsp bound cc b1 b2 : null b1 = null b2 ->
